@@ -86,18 +86,12 @@ def rule_linear(r):
     arg = pf.positional_params(fn)[1]
     t = _lin_function(fn, {arg: LIN}, ix, "sesans", "SesansTransform")
     r.check(t == LIN, F, "SesansTransform.apply", "apply(%s) is linear" % arg, fn.lineno, "linearity type %s" % t)
-    env = nf.straightline_env(fn.body, funcs={"dot": lambda a, b: sp.Function("dot")(a, b)})
-    ret = [s for s in fn.body if isinstance(s, ast.Return)][0]
-    e = nf.py_expr(ret.value, env)
-    H, H0, I = S("self._H"), S("self._H0"), S(arg)
     dot = sp.Function("dot")
-    # accept H or H.T (shape only)
-    txt = pf.unparse(ast.Module(body=fn.body, type_ignores=[]))
-    ok = ("np.dot(self._H.T, %s)" % arg in txt or "np.dot(self._H, %s)" % arg in txt) and "np.dot(self._H0, %s)" % arg in txt
-    env2 = nf.straightline_env([ast.parse(pf.unparse(s).replace("self._H.T", "self._H")).body[0] for s in fn.body
-                                if isinstance(s, ast.Assign)], funcs={"dot": lambda a, b: dot(a, b)})
-    e2 = nf.py_expr(ret.value, env2)
-    r.check(ok and nf.equal(e2, dot(H, I) - dot(H0, I)), F, "SesansTransform.apply", "return G - G0 = H.I - H0.I", ret.lineno,
+    ret = [s_ for s_ in fn.body if isinstance(s_, ast.Return)][0]
+    full = _strip_methods(pf.inline_locals(fn, ret.value))
+    e2 = nf.py_expr(full, {}, {"dot": lambda a, b: dot(a, b)})
+    H, H0, I = S("self._H"), S("self._H0"), S(arg)
+    r.check(nf.equal(e2, dot(H, I) - dot(H0, I)), F, "SesansTransform.apply", "return G - G0 = H.I - H0.I", ret.lineno,
             "found %s" % e2)
 
 
